@@ -235,6 +235,12 @@ def term_of(text):
     return [INV.get(ch, 9) for ch in text]
 
 
+def _scaled(x):
+    v = float(x) * world.UNIT
+    iv = int(round(v))
+    return iv if abs(v - iv) < 1e-6 else -int(abs(v) * 1000) - 1
+
+
 def plan_ops(plan):
     ops = []
     for step in plan:
@@ -278,7 +284,9 @@ def dump(reader, idx, schema, rng=None, maxterms=40, columns=True, vectors=True,
             def post(f=f, t=t, text=text):
                 m = reader.postings(f, text)
                 lst = []
+                wl = []
                 while m.is_active():
+                    wl.append([int(m.id()), _scaled(m.weight())])
                     freq = m.value_as("frequency") if m.supports("frequency") else 1
                     pos = list(m.value_as("positions")) if m.supports("positions") else None
                     lst.append([int(m.id()), int(freq), [int(p) for p in pos] if pos is not None else None])
@@ -289,10 +297,18 @@ def dump(reader, idx, schema, rng=None, maxterms=40, columns=True, vectors=True,
                     obs.append({"kind": "postings_nopos", "f": f, "t": t, "list": lst})
                 else:
                     obs.append({"kind": "postings", "f": f, "t": t, "list": lst})
+                obs.append({"kind": "weights", "f": f, "t": t, "list": wl})
+                if fobj.format.supports("characters"):
+                    m2 = reader.postings(f, text)
+                    cl = []
+                    while m2.is_active():
+                        cl.append([int(m2.id()), [[int(a), int(b), int(c)] for a, b, c in m2.value_as("characters")]])
+                        m2.next()
+                    obs.append({"kind": "chars", "f": f, "t": t, "list": cl})
                 if terminfo:
                     ti = reader.term_info(f, text)
-                    obs.append({"kind": "terminfo", "f": f, "t": t, "df": int(ti.doc_frequency()), "tf": int(round(ti.weight())),
-                                "minid": int(ti.min_id()), "maxid": int(ti.max_id()), "maxw": int(round(ti.max_weight()))})
+                    obs.append({"kind": "terminfo", "f": f, "t": t, "df": int(ti.doc_frequency()), "tf": _scaled(ti.weight()),
+                                "minid": int(ti.min_id()), "maxid": int(ti.max_id()), "maxw": _scaled(ti.max_weight())})
             guard("postings:%s" % f, post)
         # a term that no document contains
         guard("absent", lambda f=f: obs.append({"kind": "absent" if (f, u"cccc") not in reader else "flag", "f": f,
